@@ -381,6 +381,17 @@ def r10_assert_eq(s, guard=False):
         edits.append((b, e, 'assert!((%s) %s (%s))' % (args[0], op, args[1])))
     s2 = apply_edits(s, edits)
     cnt = len(edits)
+    # panic messages are dropped: assert!(c, "msg", ..) -> assert!(c); unreachable!("msg") -> unreachable!()
+    edits = []
+    for name, b, g, e in _macro_calls(s2, {'assert', 'debug_assert'}):
+        args = split_args(s2, g + 1, e - 1)
+        if len(args) > 1:
+            edits.append((b, e, '%s!(%s)' % (name, args[0])))
+    for name, b, g, e in _macro_calls(s2, {'unreachable', 'panic', 'unimplemented', 'todo'}):
+        if s2[g + 1:e - 1].strip():
+            edits.append((b, e, '%s!()' % ('unreachable' if name == 'unreachable' else 'panic')))
+    s2 = apply_edits(s2, edits)
+    cnt += len(edits)
     if guard:
         edits = []
         for name, b, g, e in _macro_calls(s2, {'assert'}):
@@ -601,3 +612,30 @@ def fn_signature_parts(text):
     if arrow_end is not None:
         ret = (arrow_end, stop)
     return bo, ret, where_pos
+
+
+def r7_desugar_for(text, expr_lit, repl_expr):
+    """`for PAT in <expr_lit> BODY` -> `{ let mut verif_it = <repl_expr>; loop { match verif_it.next() { Some(PAT) => BODY, None => break, } } }`
+    (Rust reference desugaring of `for`, with the iterator constructor replaced by a prelude mirror)."""
+    cnt = 0
+    while True:
+        found = None
+        for kw, kpos, bo, be in find_loops(text):
+            if kw != 'for':
+                continue
+            hdr = text[kpos:bo]
+            m = re.match(r'for\s+(.*?)\s+in\s+(.*?)\s*$', hdr, re.S)
+            if not m:
+                continue
+            if norm_ws(m.group(2)) == norm_ws(expr_lit):
+                found = (kpos, bo, be, m.group(1))
+                break
+        if not found:
+            break
+        kpos, bo, be, pat = found
+        hdr = text[kpos:bo]
+        new_hdr = '{ let mut verif_it = %s; loop { match verif_it.next() { Some(%s) => ' % (repl_expr, norm_ws(pat))
+        new_hdr += '\n' * hdr.count('\n')
+        text = text[:kpos] + new_hdr + text[bo:be] + ', None => break, } } }' + text[be:]
+        cnt += 1
+    return text, cnt
